@@ -1,7 +1,7 @@
 (* C12 — the solution checker accepts valid solutions and rejects injected breaches.
    The reference semantics is Spec/Valid.v (`valid_b`); the breach operators are Spec/Mutations.v.  This file contains only the
    property theorems, each closed by `exact`.  The bundled Rust checker is tied to `valid_b` behaviourally (tools/props/c12.py). *)
-From VRP Require Import Base.Tac Model.Core Spec.Feasible Spec.Valid Proofs.ValidP Spec.Mutations Proofs.MutationsP.
+From VRP Require Import Base.Tac Model.Core Spec.Feasible Spec.Valid Proofs.ValidP Spec.Relations Spec.Mutations Proofs.MutationsP.
 
 (* the verdict is the conjunction of the rule groups (P, A, F, R and the second parts of F and R: compatibility, groups,
    reachability, capacity / load in the capacity dimensions >= 1) *)
@@ -74,9 +74,22 @@ Theorem C12_breach_break_location : forall P S k s a l st x,
   valid_b P (mutS (MBreakLoc k s a l) S) <> [].
 Proof. exact mut_break_loc_invalid. Qed.
 
+(* broken relation, with the pinning rules of Spec/Relations.v (proved there: rel_viols = [] <-> every relation RelPinned) as part of
+   the reference verdict valid_r = valid_b ++ rel_viols: a stop that serves a job named by a relation (any type) leaves the
+   relation's tour for any other tour - no validity hypothesis needed: either that tour is not the relation's (vehicle pinning
+   fails) or two tours are driven by one vehicle shift (accounting fails).  The breaches of order / contiguity / anchoring
+   (MRelShift) have no theorem: they are evaluated by rel_viols on every generated site. *)
+Theorem C12_breach_relation_tour : forall rels P S k s k2 r t t2 st x,
+  In r rels -> k <> k2 -> nth_error (sl_tours S) k = Some t -> nth_error (sl_tours S) k2 = Some t2 ->
+  is_rel_tour r t = true -> nth_error (to_stops t) s = Some st -> In x (ss_acts st) ->
+  is_mid_kind (sa_kind x) = true -> In (sa_job x) (rel_ids r) ->
+  valid_r rels P (mutS (MRelTour k s k2) S) <> [].
+Proof. exact mut_rel_tour_invalid. Qed.
+
 (* The full statement is
      forall m P S, valid_b P S = [] -> applicable_b m P S = true -> valid_b (mutP m P S) (mutS m S) <> [].
-   Proved above for 14 of the 21 operators.  MISSING (no theorem; on every generated site the instance is evaluated inside Coq by
+   Proved above for 14 of the 21 operators judged by valid_b alone (the two relation operators MRelTour / MRelShift are judged by
+   valid_r: C12_breach_relation_tour).  MISSING (no theorem; on every generated site the instance is evaluated inside Coq by
    the correspondence, Mutations.run_mutation, and a counterexample would be reported as a disagreement): MCapacity (load above
    capacity), MArrival (arrival mismatch), MDupAct (duplicated activity), MDropStop (dropped stop), MMoveStop (job split by moving a
    stop), MBreakDup / MBreakDrop (a break that takes time listed twice / taken out).  What is missing for them is a decomposition
@@ -84,7 +97,7 @@ Proof. exact mut_break_loc_invalid. Qed.
 Theorem C12_breach_is_invalid_partial : forall m P S,
   valid_b P S = [] -> applicable_b m P S = true ->
   match m with MCapacity _ _ | MArrival _ _ _ | MDupAct _ _ | MDropStop _ _ | MMoveStop _ _ _
-               | MBreakDup _ _ _ | MBreakDrop _ _ _ => True
+               | MBreakDup _ _ _ | MBreakDrop _ _ _ | MRelTour _ _ _ | MRelShift _ _ _ => True
           | _ => valid_b (mutP m P S) (mutS m S) <> [] end.
 Proof. exact breach_is_invalid_partial. Qed.
 
